@@ -731,3 +731,17 @@ func wellFormedModuloLR(rules []*Rule) bool {
 }
 
 var _ = utf8.RuneError
+
+// ClassesOf returns the raw texts of the character classes of grammar idx.
+func ClassesOf(p *Profile, seed int64, idx int) []string {
+	rules, _, _ := GenGrammar(p, seed*1000003+int64(idx))
+	var out []string
+	for _, r := range rules {
+		walkNodes(r.Expr, func(n *Node) {
+			if n.K == KCls {
+				out = append(out, n.Cls)
+			}
+		})
+	}
+	return out
+}
